@@ -47,6 +47,9 @@ CHECKS = {
  "C20": dict(level="exploration", sec="3/C20", technique="exhaustive enumeration of the 7 architecture descriptors against a register universe obtained by exhaustively lifting every register-field value of representative encodings, and against transcribed psABI tables",
    text="All 7 architectures: every register the default calling convention names must be emitted by the translator with that width (universe = all scalars from lifting all 32 register numbers / all ModRM x REX forms), stack pointer, word size, endianness, argument order for n<16, stack-argument stride, return register, return address, preserved/trashed disjoint, sp preserved. The configuration space is finite and fully enumerated.",
    note="Trusted: psABI transcription for argument order/return conventions (harness tables). The base offset of the stack-argument area is not part of the statement and only reported."),
+ "C06": dict(level="model_checking", sec="3/C06", technique="exhaustive enumeration of small machine-code programs x window alignments x entries x manual-edge sets; explicit lock-step comparison of the recovered CFG's executions with an instruction-at-a-time fetch-execute loop",
+   text="For 7 translators: all programs of <=3 (thorough 4) instructions over {inc, nop, conditional branch to any index, jump to any index, return} x both condition values x nop runs placing each position at window offsets 56..66 x entry at instruction 0/1 x 3 manual-edge sets; address traces, final registers, per-instruction IL counts, entry address, dangling edges and manual-edge presence compared. Larger programs and other instruction mixes are not covered.",
+   note="Trusted: refil reference semantics; per-instruction meaning is taken from the lifter itself (single-instruction lifting), so only composition is judged."),
 }
 NA = []
 def main():
